@@ -44,12 +44,18 @@ func sink(pkg, ev string, a ...int64) {
 	n := len(trEvents)
 	trMu.Unlock()
 	if n > maxEvents {
-		panic(stallPanic("more than 2,000,000 hook events in one call at " + pkg + "." + ev))
+		// remembered here as well: the library may recover the panic (ScanJPEG, ParseXmp do) and turn it into an error
+		stalled = "more than 2,000,000 hook events in one call at " + pkg + "." + ev
+		panic(stallPanic(stalled))
 	}
 }
 
+// stalled is set when the event cap aborts a call (see sink).
+var stalled string
+
 func startTrace() {
 	trMu.Lock()
+	stalled = ""
 	trEvents = nil
 	trOn = true
 	trMu.Unlock()
